@@ -6,6 +6,7 @@ from .. import inputs
 from . import geom
 
 SPEC = dict(
+    technique='Lean 4 proof (exp = Rodrigues/screw closed form, exp(log R) = R on the general branch; regenerated model) + float monitor of the singular bands',
     lean_modules=['SmVerif.Props.C03'],
     groups=['Transforms3d', 'Transforms2d', 'TransformsNd', 'Vectors'],
     expected_untranslatable=('trinterp_T', 'trinterp_T_nostart'),
